@@ -71,6 +71,12 @@ Init ==
               \E ch \in [1..n -> 1..Len(FSeq)] :
                  LET chain == [i \in 1..n |-> FSeq[ch[i]]] IN
                  prog = At(Positions[pos], Filt(Var(<<"v">>), chain), chain)
+       [] Family = "arrparam" ->
+            \* a parameter that is a list literal whose items are names: evaluated where and when the filter is applied
+            \E pos \in 1..Len(Positions), tl \in 1..3, shape \in 1..2 :
+               LET arr == [t |-> "arr", items |-> IF shape = 1 THEN <<Var(<<"p">>), Lit(I(1))>> ELSE <<Lit(S(<<"z">>)), Filt(Var(<<"p">>), <<FC("upper", NoArg)>>)>>] IN
+               LET chain == <<FC("default", arr), <<FC("first", NoArg), FC("last", NoArg), FC("join", Lit(S(<<",">>)))>>[tl]>> IN
+               prog = At(Positions[pos], Filt(Var(<<"nope">>), chain), <<FC("cut", Lit(S(<<"a">>))), FC("cut", Lit(S(<<"b">>)))>> \o chain)
        [] Family = "sym1" ->
             \E f \in RegFilters, a \in 1..Len(SymArgs), src \in {"sv", "n2", "l"} :
                prog = <<Out(Filt(Var(<<src>>), <<FC(f, SymArgs[a])>>))>>
@@ -89,7 +95,7 @@ Init ==
                \/ prog = <<[t |-> "filter", chain |-> <<FC(f1, NoArg), FC(f2, SymArgs[a])>>, body |-> <<T(<<"a", " ", "b">>), Out(Var(<<"n2">>))>>]>>
 Next == go = FALSE /\ go' = TRUE /\ UNCHANGED prog
 
-Res == IF Family = "pos" THEN RenderF(prog, Ctx, Files) ELSE RenderSym(prog, Ctx, Files)
+Res == IF Family \in {"pos", "arrparam"} THEN RenderF(prog, Ctx, Files) ELSE RenderSym(prog, Ctx, Files)
 Balanced == go => ScopesBalanced(Res)
 \* on the model: the filter events of one chain appear in written order
 EmitVec == go => PrintT(ToJson([m |-> "C19", prog |-> prog, ctx |-> Ctx, files |-> Files, tags |-> <<Family>>,
